@@ -6,6 +6,7 @@ import Rend.Server.Loop
 import Rend.Wire.Decode
 import Rend.Handlers.Std
 import Rend.Handlers.Chunked
+import Rend.Handlers.Inmem
 import Rend.Gen.Asm
 import Rend.Metrics.Hist
 import Rend.Cluster.Ketama
@@ -85,7 +86,8 @@ def mkConn (toks : List String) : ConnDesc :=
     locked := get "locked" "0" == "1", bits := (get "bits" "0").toNat!, l1 := get "l1" "std" }
 
 def confOf (c : ConnDesc) (now : Nat) : Conf :=
-  let h1 : Handler OEv := if c.l1 == "chunked" then Chunked.handler .l1 now else Std.handler .l1
+  let h1 : Handler OEv := if c.l1 == "chunked" then Chunked.handler .l1 now
+    else if c.l1 == "inmem" then Inmem.handler now else Std.handler .l1
   let h2 : Handler OEv := Std.handler .l2
   let base := c.orca.step h1 h2
   { proto := c.proto, orca := if c.locked then Locked.step c.bits base else base }
